@@ -67,29 +67,29 @@ Lemma inherited_grants_once : parser_inherited_grants_once = true.
 Proof. reflexivity. Qed.
 Lemma descriptor_refs_analysed : parser_descriptor_refs_analysed = true.
 Proof. reflexivity. Qed.
+(* and for F30 (cebdf3962), F31 (c18ef77d3), F32 (5c4cab4d1) *)
+Lemma inherited_nested_in_own_package : parser_inherited_nested_in_own_package = true.
+Proof. reflexivity. Qed.
+Lemma diamond_below_heir_accepted : parser_diamond_below_heir_accepted = true.
+Proof. reflexivity. Qed.
+Lemma grant_inherited_columns : parser_grant_inherited_columns = true.
+Proof. reflexivity. Qed.
 
 (* The faithful model of the Go compiler against the spec - the link theorem: for every well-formed
    schema the model compiles it and the oracle `satisfies` accepts the model's output (so the
-   property holds on every input on which compiler and model agree).
-
-   Ten points at which compilers of this family have differed are read off the source; seven of them
-   the source does the spec's way (side conditions above).  Three are open findings (F30, F31, F32):
-   for each the theorem carries the hypothesis "the compiler does it the spec's way, or the schema
-   stays clear of the shape" - the hypotheses the proof forces ARE the findings.  With a flag `true`
-   its hypothesis holds for every schema (`or_introl`). *)
+   property holds on every input on which compiler and model agree).  No hypothesis beyond `wf a`:
+   the ten points at which compilers of this family have differed are read off the source, and the
+   source does all ten the spec's way (side conditions above; a regression flips a flag and breaks one). *)
 Theorem go_model_meets_spec :
   forall a, wf a = true ->
-  (parser_inherited_nested_in_own_package = true \/ no_foreign_nested a = true) ->  (* F30 *)
-  (parser_diamond_below_heir_accepted = true \/ no_diamond_below a = true) ->       (* F31 *)
-  (parser_grant_inherited_columns = true \/ grant_cols_own a = true) ->             (* F32 *)
   exists d, compile a Go = Some d /\ satisfies (Trace a (render a) (Compiled d true true)) = true.
 Proof.
-  exact (fun a Hwf => go_meets_spec_within_proved uniques_numbered_per_type nested_tables_inherit view_refs_recorded a Hwf
-                        (or_introl inherited_grants_once) (or_introl lookup_respects_package)
-                        (or_introl inherits_in_own_package) (or_introl descriptor_refs_analysed)).
+  exact (go_meets_spec_proved uniques_numbered_per_type nested_tables_inherit view_refs_recorded
+                              inherited_grants_once lookup_respects_package inherits_in_own_package descriptor_refs_analysed
+                              inherited_nested_in_own_package diamond_below_heir_accepted grant_inherited_columns).
 Qed.
 
-(* the form the theorem had while the repairs of F26..F29 were missing: each hypothesis reads "the
+(* the form the theorem had while the repairs of F26..F32 were missing: each hypothesis reads "the
    compiler does it the spec's way, or the schema stays clear of the shape" - the hypotheses the proof
    forced were the findings *)
 Theorem go_model_meets_spec_within :
@@ -189,7 +189,7 @@ Example lost_descriptor_refs_refuted_F29 :
   exists d, compile a_f29 (Mode true true true false true true false true true true) = Some d
             /\ satisfies (Trace a_f29 (render a_f29) (Compiled d true true)) = false.
 Proof. eexists; split; vm_compute; reflexivity. Qed.
-(* F30, F31, F32 (open): three more probes, each well-formed and hitting exactly one shape; the one-flag-off
+(* F30, F31, F32 (repaired since): three more probes, each well-formed and hitting exactly one shape; the one-flag-off
    variants do not model what the code does there (it adds a phantom nested table / refuses the
    schema): `compile` = None, `agrees` abstains, the oracle judges the observed definition. *)
 Definition a_f30 : schema := [(Pkg "app1"%string [[(Ws "W"%string false [(QR "liba"%string "Base"%string)] None [(ITable (Table "T"%string false (Some (QR "liba"%string "A"%string)) [(TField (Fld "c"%string DInt32 false false None))]))])]]); (Pkg "liba"%string [[(Ws "Base"%string true [] None [(ITable (Table "A"%string true (Some (QR "sys"%string "CDoc"%string)) [(TField (Fld "a"%string DInt32 false false None)); (TNested "items"%string (Table "N"%string false None [(TField (Fld "x"%string DInt32 false false None))]))])); (ITable (Table "U"%string false (Some (QR "liba"%string "A"%string)) [(TField (Fld "u"%string DInt32 false false None))]))])]])].
@@ -202,7 +202,7 @@ Example shapes_of_the_probes_F30_F31_F32 :
   /\ compile a_f30 (Mode true true true false true true true false true true) = None
   /\ compile a_f31 (Mode true true true false true true true true false true) = None
   /\ compile a_f32 (Mode true true true false true true true true true false) = None
-  /\ forallb (fun a => match compile a Ideal with
+  /\ forallb (fun a => match compile a Go with
                        | Some d => satisfies (Trace a (render a) (Compiled d true true))
                        | None => false end) [a_f30; a_f31; a_f32] = true
   /\ match find (fun i => qname_eqb (item_key i) ("app1", "T")%string) (compile_items a_f30 Ideal) with
